@@ -119,10 +119,10 @@ Refines(t) ==
 
 \* ------------------------------------------------------------------ enumeration
 Obj3 == VObj(<<Fld(<<97>>, FALSE, VNum(1)), Fld(<<98>>, TRUE, VNum(9)), Fld(<<99>>, FALSE, VStr(<<120>>))>>)
-Bases == { Lit(<<>>), Lit(Nums(<<7>>)), Lit(Nums(<<1, 2, 3>>)), Range(0, 3), Range(2, 1), MakeArr(3),
+Bases == { Lit(<<>>), Lit(Nums(<<7>>)), Lit(Nums(<<1, 2, 3>>)), Range(0, 3), Range(2, 1), Range(4, 4), MakeArr(3),
            Chars(<<97, 233, 128512>>), Utf8(<<97, 233>>), ObjVals(Obj3), Sort(Lit(Nums(<<3, 1, 2>>))),
-           Flat(<<Lit(Nums(<<1>>)), Range(2, 3)>>), RemoveAt(Lit(Nums(<<1, 2, 3>>)), 1) }
-SmallBases == { Lit(<<>>), Lit(Nums(<<7>>)), Range(5, 6) }
+           Flat(<<Lit(Nums(<<1>>)), Range(2, 3)>>), Flat(<<Lit(Nums(<<1>>)), Range(4, 4), Lit(Nums(<<2>>))>>), RemoveAt(Lit(Nums(<<1, 2, 3>>)), 1) }
+SmallBases == { Lit(<<>>), Lit(Nums(<<7>>)), Range(5, 6), Range(5, 5) }   \* a one-element range: not empty, not a literal
 
 Bound == {NoB} \cup ((0 - 2)..5)
 Steps == {NoB, 1, 2, 3}
